@@ -362,6 +362,11 @@ func fzCorpus() []*fzCase {
 		raw := strings.Replace(fzValidFile, sub[0], sub[1], 1)
 		out = append(out, &fzCase{class: "corpus/package-doc-only-" + name, group: "corpus/package-doc", raw: &raw})
 	}
+	// a setup file that uses cgo: the loader never hands it over (dc1e742)
+	for name, imp := range map[string]string{"plain": "import \"C\"\n", "preamble": "/*\n#include <stdio.h>\n*/\nimport \"C\"\n"} {
+		raw := strings.Replace(fzValidFile, "package sc\n", "package sc\n\n"+imp, 1)
+		out = append(out, &fzCase{class: "corpus/import-c-" + name, group: "corpus/cgo", raw: &raw})
+	}
 	// ":recv" with a Go keyword
 	for _, kw := range []string{"func", "type"} {
 		c := &fzCase{class: "corpus/recv-keyword-" + kw, group: "corpus/recv", positioned: true}
